@@ -33,7 +33,7 @@ def env_for(ck=None):
 def plan(tier):
     n = vlib.NCPU
     p = [("align", "san", 1), ("multiblock", "san", 1), ("reuse", "fast", n), ("public", "fast", n), ("public-san", "san", n),
-         ("public-batch", "fast", n), ("x86-sys", "fast", n), ("x86", "fast", n), ("riscv", "fast", n), ("ia64", "fast", n),
+         ("public-batch", "fast", n), ("x86-sys", "fast", n), ("x86", "fast", n), ("x86-phases", "fast", n), ("riscv", "fast", n), ("ia64", "fast", n),
          ("delta", "fast", n), ("delta-strings", "fast", n)]
     for w in ("arm", "armthumb", "powerpc", "sparc", "arm64"):
         p += [("words-" + w, "fast", n), ("batch-" + w, "fast", n)]
